@@ -556,6 +556,27 @@ def thorough_extras(pid, repo, units, outdir):
             out['selftest'][sid] = {0: 'NOT detected by the Verus part', 1: 'detected', 2: 'no verdict'}.get(p.returncode, str(p.returncode))
         finally:
             shutil.rmtree(tmp, ignore_errors=True)
+    # (c) false-alarm self-test: every behaviour-preserving change of this property (harmless/<ID>-H*/patch.diff) applied to a
+    # scratch copy must NOT make the Verus part report a violation (no verdict is tolerated)
+    out['harmless'] = {}
+    for pd in sorted(glob.glob(os.path.join(VERIF, 'harmless', pid + '-*', 'patch.diff'))):
+        hid = os.path.basename(os.path.dirname(pd))
+        tmp = tempfile.mkdtemp(prefix='verif-harmless-', dir=SCRATCH_ROOT)
+        try:
+            shutil.copytree(os.path.join(repo, 'src'), os.path.join(tmp, 'src'))
+            for f in ('Cargo.toml', 'Cargo.lock'):
+                if os.path.exists(os.path.join(repo, f)):
+                    shutil.copy(os.path.join(repo, f), tmp)
+            ap = subprocess.run(['patch', '-p1', '-s', '-d', tmp, '-i', pd], capture_output=True, text=True)
+            if ap.returncode != 0:
+                out['harmless'][hid] = 'patch does not apply to the current tree (skipped)'
+                continue
+            p = subprocess.run([sys.executable, os.path.abspath(__file__), pid, '--no-kani', '--repo', tmp,
+                                '--evidence-dir', os.path.join(tmp, 'ev')], capture_output=True, text=True,
+                               env=dict(os.environ, VERIF_SCRATCH=os.path.join(tmp, 'scratch'), VERIF_TIER='quick'))
+            out['harmless'][hid] = {0: 'ok', 1: 'FALSE ALARM', 2: 'no verdict'}.get(p.returncode, str(p.returncode))
+        finally:
+            shutil.rmtree(tmp, ignore_errors=True)
     return out
 
 
